@@ -597,6 +597,32 @@ theorem cli_reload_failure_changes_nothing {env : Env} {s : State} (hs : Reachab
     · rw [h1] at h; simp at h
     · rw [h1]; rfl
 
+/-! ### pulled configs (config loaders, caddy.go finishSettingUp) -/
+
+/-- **a pulled config replaces the document or changes nothing**, and keeps the invariant: it
+    goes through the same `changeConfig` as a request — accepted (or identical to what runs), the
+    document is exactly the pulled one; refused by the decoder, the indexer or the apps, every
+    global is as before. Either way the state is one a history of requests reaches. -/
+theorem pulled_config_replaces_document_or_changes_nothing {env : Env} {s : State} (h : Reachable env s) (j : Json)
+    (hna : ∀ xs, cfgOf s.rawCfg ≠ .arr xs) :
+    (((pulledConfig env (.val j) s).2 = .ok ∨ (pulledConfig env (.val j) s).2 = .same) ∧
+        cfgOf (pulledConfig env (.val j) s).1.rawCfg = j) ∨
+    (pulledConfig env (.val j) s).1 = s := by
+  have hi := reachable_inv h
+  unfold pulledConfig
+  by_cases hacc : (change env .post (slash :: cfgKey) (.val j) [] false s).2 = .ok ∨
+      (change env .post (slash :: cfgKey) (.val j) [] false s).2 = .same
+  · left
+    refine ⟨hacc, ?_⟩
+    have hch : change env .post (slash :: cfgKey) (.val j) [] false s = mutate env .post (slash :: cfgKey) (.val j) false s := by
+      simp [change]
+    rw [hch] at hacc ⊢
+    obtain ⟨hroot, _⟩ := mutate_accepted hacc
+    rw [hroot, access_post_cfg hi.shape hna]
+    simp [cfgOf, lookup, encodeOf]
+  · right
+    exact change_rejected hi underConfig_cfg (fun h => hacc (Or.inl h)) (fun h => hacc (Or.inr h))
+
 /-! ### an object tagged with @id is reachable under /id/ as that same object -/
 
 /-- the tagged object at position `segs` of the loaded document `j`, indexed under `t`, can
@@ -1035,5 +1061,9 @@ example : (cliReload loadEnv (.val (.arr [])) .none false false cliState) = (cli
 example : (cliReload loadEnv (.val (.arr [])) .none false true cliState).2 = .ok := by decide
 example : (cliReload loadEnv (.val (.num [49])) .registered false false cliState).2 = .ok := by decide
 example : (cliReload loadEnv (.val (.obj [(idKey, .bool true)])) .none false false cliState) = (cliState, .refused (.viaLoad .index)) := by decide
+
+-- pulled configs: accepted → the document; rejected by the indexer → nothing changes
+example : cfgOf (pulledConfig exEnv (.val .null) exLoaded).1.rawCfg = .null := by decide
+example : pulledConfig exEnv (.val (.obj [(idKey, .bool true)])) exLoaded = (exLoaded, .index) := by decide
 
 end CaddyModel.C12
